@@ -55,8 +55,12 @@ def build(pid, log):
         gen = os.path.join(LEAN, 'FCA', 'Props', pid + 'Gen.lean')
         have_gen = os.path.exists(gen)
         src_files = [os.path.join(LEAN, 'FCA', 'Props', pid + '.lean')]
-        r = sh(['lake', 'build'] + mods, cwd=LEAN)
-        pinned_ok = r.returncode == 0
+        have_props = os.path.exists(src_files[0])
+        if have_props:
+            r = sh(['lake', 'build'] + mods, cwd=LEAN)
+        pinned_ok = (r.returncode == 0) if have_props else True
+        if not have_props:
+            info['notes'].append('no theorem file lean/FCA/Props/%s.lean yet' % pid)
         if not pinned_ok:
             log(r.stdout[-3000:])
             info['notes'].append('lake build FCA.Props.%s failed' % pid)
@@ -88,7 +92,7 @@ def build(pid, log):
         # axioms audit
         audit = os.path.join(WORK, 'Audit_%s_%d.lean' % (pid, os.getpid()))
         imports = []
-        if pinned_ok:
+        if pinned_ok and have_props:
             imports.append('import FCA.Props.' + pid)
         if have_gen and gen_ok:
             imports.append('import FCA.Props.%sGen' % pid)
@@ -254,7 +258,8 @@ def write_evidence(pid, tier, seed, run, info, wall, status):
     }
     if not cov['obligations']:
         del cov['obligations'], cov['discharged']
-    ev = {'property_id': pid, 'tier': tier, 'seed': seed, 'level': 'proof', 'coverage': cov,
+    proved = info['obligations'] > 0 and info['discharged'] == info['obligations']
+    ev = {'property_id': pid, 'tier': tier, 'seed': seed, 'level': 'proof' if proved else 'exploration', 'coverage': cov,
           'assumptions': TRUSTED, 'wall_s': round(wall, 2), 'violations': 1 if status == 1 else 0}
     with open(os.path.join(VERIF, 'evidence', pid + '.json'), 'w') as f:
         json.dump(ev, f, indent=1, sort_keys=True, default=str)
